@@ -207,5 +207,54 @@ func checkDefs() map[string]CheckDef {
 		BoundsText: "one ledger channel and one sub-channel; symbolic versions (< 2^60) of initial states, of every published transaction (strictly increasing per channel by a symbolic step) and of every adjudicator event; symbolic locked flag per parent publication; histories of h steps over {publish parent, publish sub, event for parent, event for sub (registered/progressed/concluded), start sub, stop sub, stop parent (refused while the sub-channel is watched)}; h=4 (5 thorough) under the deterministic schedule, h=3 (4 thorough) under all wake-up orders at blocking points with race detection",
 		Outside:    []string{"multi-ledger forcing rule", "more than one sub-channel", "failing Register calls", "preemptions inside the handlers (P>0)"},
 	})
+	clientAssume := append(append([]string{}, commonAssumptions...), cryptoAssumptions[0],
+		"client world: a real client.Client (registry, channel objects, machine mutexes, update interceptors, state watchers) wired to harness stubs for bus (records published envelopes), funder, adjudicator and watcher; handlers are entered through overlay-only export shims (client/zz_verif_export.go) exactly as Client.Handle dispatches them (one goroutine per message)",
+		"channels are adopted in an arbitrary state through the real channelFromSource path (as Restore does); the honest client's account is a sim wallet account; the adversary holds the peer's (and a stranger's) valid keys",
+		"context deadlines and timers are the harness runtime's plain-Go models on the engine's virtual clock; timers fire only when no goroutine can run (a 10 s protocol timeout is 'eventually, after everything else')",
+		"logging (logrus) is modelled as no-op; log.Panic* still panics")
+	add(CheckDef{
+		ID: "C08",
+		Obligations: []Obligation{
+			{Pkg: "internal/verifh/c08", Harness: "VerifC08Validation", TV: 10},
+			{Pkg: "internal/verifh/c08", Harness: "VerifC08Agreement", Quick: map[string]int{"c08full": 0}, Thor: map[string]int{"c08full": 1}, TV: 6},
+		},
+		Assumptions: append(append([]string{}, clientAssume...),
+			"reference validity predicate: DESIGN.md Appendix A.4",
+			"SHA3-256 (nonce derivation) and SHA-256 (channel ID) are ideal: equal digests iff equal input streams",
+			"quick tier: nonce digests without a leading zero byte in the two ID-dependence experiments (the thorough tier explores every digest length 0..32)"),
+		BoundsText: "validation: a client with or without an open ledger channel to the sender (symbolic balances, optionally locked funds); ledger, sub-channel and virtual channel proposals built well-formed with symbolic leaves and exactly one of 24 deviations (participants, challenge duration, allocation shape/validity/locked, funding agreement, peers vs sender/receiver, parent id, assets, funds vs parent, parents list and index maps of every wrong length, entries out of range); the proposal handler must be invoked only for proposals the reference accepts, never panic, and leave the parent's mutex free; agreement: completeCPP's parameter derivation on both sides' clients for ledger and virtual proposals with symbolic nonce shares, proposal IDs and challenge durations; the ID changes iff the proposer's / the responder's share changes; accept messages of the wrong type or proposal ID are refused",
+		Outside:    []string{"the two-party opening protocol under all network schedules (initial signature exchange over a live bus): only the deterministic derivation and validation steps are encoded", "more than two participants", "apps other than NoApp in proposals"},
+	})
+	add(CheckDef{
+		ID: "C07",
+		Obligations: []Obligation{
+			{Pkg: "internal/verifh/c07", Harness: "VerifC07Update", Quick: map[string]int{"maxLocked": 1, "phases": 2}, Thor: map[string]int{"maxLocked": 2, "phases": 4}, TV: 10},
+			{Pkg: "internal/verifh/c07", Harness: "VerifC07SubFunding", TV: 10},
+			{Pkg: "internal/verifh/c07", Harness: "VerifC07SubSettlement", TV: 10},
+			{Pkg: "internal/verifh/c12", Harness: "VerifVirtualFunding", TV: 6},
+			{Pkg: "internal/verifh/c12", Harness: "VerifVirtualSettlement", Quick: map[string]int{"bKinds": 2}, Thor: map[string]int{"bKinds": 3}, TV: 6},
+		},
+		Assumptions: append(append([]string{}, clientAssume...),
+			"the independent acceptability predicates are written from the property text in the harness (c07.go acceptable/successor, sub.go, c12/virtual.go fundingRef/settlementRef); the wire-level sender is not part of them (the property identifies the sender by the signature)",
+			"the user's update handler accepts or rejects nondeterministically; 'countersigned' is observed as a ChannelUpdateAcc on the bus carrying the client's signature"),
+		BoundsText: "ordinary updates: channel in phase Acting/Final (thorough: +Registered/Funding) with symbolic balances, version and 0..1 (2) locked sub-allocations with empty/[0,1]/[1,0] index maps; candidate = arbitrary balances + one of 12 structural deviations (version, id, final flag, locked amount / index map / identity edited, sub-allocation removed / added / reordered, other asset, balance column more/fewer); signature = peer over candidate / over a state differing in one balance / over the current state / stranger over candidate / garbage; actor index arbitrary 16 bit; sub-channel funding and settlement interceptors: registered as completeCPP / acceptUpdate do, candidate with arbitrary debits/credits and 7 / 6 deviations of the locked list; virtual channel funding (14 deviations) and settlement (11 deviations) proposals sent by one party with the other party's matching, different or missing proposal, both arrival orders",
+		Outside:    []string{"apps with their own transition rules (covered at machine level by C02)", "more than two participants / one asset", "preemptive schedules inside the handlers"},
+	})
+	add(CheckDef{
+		ID: "C12",
+		Obligations: []Obligation{
+			{Pkg: "internal/verifh/c12", Harness: "VerifC12Sync", Quick: map[string]int{"phases": 2}, Thor: map[string]int{"phases": 5}, TV: 10},
+			{Pkg: "internal/verifh/c12", Harness: "VerifC12Update", Quick: map[string]int{"phases": 2}, Thor: map[string]int{"phases": 5}, TV: 10},
+			{Pkg: "internal/verifh/c08", Harness: "VerifC08Validation", TV: 6, Note: "proposal messages: no panic, parent channel not left locked"},
+			{Pkg: "internal/verifh/c12", Harness: "VerifVirtualFunding", TV: 6},
+			{Pkg: "internal/verifh/c12", Harness: "VerifVirtualSettlement", Quick: map[string]int{"bKinds": 2}, Thor: map[string]int{"bKinds": 3}, TV: 6},
+		},
+		Assumptions: append(append([]string{}, clientAssume...),
+			"'decodes successfully' is modelled by building message values directly within what the decoders can deliver (C13/C14 cover the decoders): states that fail State.Valid are only sent with garbage signatures; parameters have at least two participants; no nil sub-messages",
+			"'still completes or refuses honest requests in bounded time' is checked as: after all handler goroutines are quiescent (all virtual-time timeouts fired) every channel's machine mutex is free, at most one response per request was sent, no goroutine of the client is blocked forever on the responder's done channel, and the phase is one an honest request can proceed from",
+			"an unrecovered panic in any goroutine is a violation (natively: the test binary dies with 'panic:')"),
+		BoundsText: "sync messages (4 shapes incl. the decodable empty transaction), update messages (9 deviations x 4 signature kinds x arbitrary actor index, from the peer or a stranger), all proposal kinds with 24 deviations (shared with C08), virtual channel funding (14 deviations) and settlement (11 deviations) proposals incl. more/fewer signatures than participants, index maps of wrong length or with entries out of range, unallocated or already allocated channels, with/without the second party's proposal in both arrival orders and with timeouts; channel in phases Acting/Signing (thorough: +Final/Registered/Funding)",
+		Outside:    []string{"sequences of more than two adversarial messages per run (each handler is checked from an arbitrary channel state instead)", "proposal responses and update responses arriving outside a protocol run (they are consumed by wire receivers created per request; not encoded)", "preemptive schedules inside the handlers"},
+	})
 	return defs
 }
